@@ -28,7 +28,7 @@ enum Kind {
 }
 
 fn decode(st: u64) -> Kind {
-    let p = st >> 8;
+    let p = (st >> 8) & ((1 << 52) - 1);
     match st & 0xff {
         1 => {
             let s = [6u32, 6, 6, 8, 10, 12, 16, 32][(p % 8) as usize];
@@ -45,7 +45,10 @@ fn decode(st: u64) -> Kind {
 pub fn style_from(seed: u64) -> u64 {
     let r = crate::rng::mix(seed ^ 0x6b65_795f_7374_796c);
     let p = r >> 16;
-    match r % 100 {
+    // bits 60..62: node creation (see `nodes_born_elsewhere`); the key parameter keeps bits 8..59
+    let born = (crate::rng::mix(r) & 7) << 60;
+    let p = p & ((1 << 44) - 1);
+    born | match r % 100 {
         0..=49 => 0,
         50..=74 => 1 | (p << 8),
         75..=84 => 2 | (p << 8),
@@ -56,6 +59,12 @@ pub fn style_from(seed: u64) -> u64 {
 
 pub fn set_style(st: u64) {
     STYLE.store(st, Relaxed);
+}
+
+/// Part of the style: are the nodes of this run created on threads of their own (sync flavours)?
+/// Decided by bits of the style word that no key style uses, so one run in eight whatever the keys.
+pub fn nodes_born_elsewhere() -> bool {
+    (STYLE.load(Relaxed) >> 60) & 7 == 7
 }
 
 pub fn style() -> u64 {
@@ -94,12 +103,20 @@ pub fn kout(k: usize) -> usize {
 }
 
 pub fn describe() -> Option<String> {
-    match decode(STYLE.load(Relaxed)) {
+    let keys = match decode(STYLE.load(Relaxed)) {
         Kind::Identity => None,
         Kind::Stride { s, c } => Some(format!("node i has key i*2^{s}+{c}")),
         Kind::Offset { base } => Some(format!("node i has key i+{base}")),
         Kind::Spread => Some(format!("node i has key i*{ODD:#x} mod 2^64")),
         Kind::Descending => Some("node i has key usize::MAX-i".to_string()),
+    };
+    match (keys, nodes_born_elsewhere()) {
+        (None, false) => None,
+        (k, born) => Some(format!(
+            "{}{}",
+            k.unwrap_or_else(|| "node i has key i".to_string()),
+            if born { "; in the sync flavours every node was created on a thread of its own" } else { "" }
+        )),
     }
 }
 
